@@ -113,15 +113,15 @@ pub fn cases(_tier: &str, seed: u64) -> Vec<Case> {
             }
         }
     }
-    for cl in CLASSES {
-        let rr = ResourceRecord::new(Name::new_unchecked("a"), cl, 0, RData::A(simple_dns::rdata::A { address: 1 }));
+    for (cl, flush) in CLASSES.iter().flat_map(|c| [(*c, false), (*c, true)]) {
+        let rr = ResourceRecord::new(Name::new_unchecked("a"), cl, 0, RData::A(simple_dns::rdata::A { address: 1 })).with_cache_flush(flush);
         let mut qs: Vec<QCLASS> = CLASSES.iter().map(|c| QCLASS::CLASS(*c)).collect();
         qs.push(QCLASS::ANY);
         for q in qs {
             let m = rr.match_qclass(q);
             let mut c = Case::new(format!("match.qclass {} {}", cl as u16, u16::from(q)), (m as u8).to_string()).tag("match.qclass");
             let want = match q { QCLASS::ANY => true, QCLASS::CLASS(x) => x == cl };
-            if want != m { c = c.fail("match-qclass", format!("class {:?} vs {:?}", cl, q)); }
+            if want != m { c = c.fail("match-qclass", format!("class {:?} (cache-flush {}) vs {:?}", cl, flush, q)); }
             v.push(c);
         }
     }
